@@ -6,7 +6,11 @@
 //!   acbsim audit-determinism [PROPERTY] [N]    run N seeds twice at worker counts 1 and 16, diff digests
 
 mod c09;
+mod c12;
+mod c13;
+mod c14;
 mod common;
+mod fx;
 mod interpose;
 mod prng;
 mod proc;
@@ -27,6 +31,18 @@ macro_rules! dispatch {
         match $prop {
             "C09" => {
                 let $e = &c09::C09;
+                $body
+            }
+            "C12" => {
+                let $e = &c12::C12;
+                $body
+            }
+            "C13" => {
+                let $e = &c13::C13;
+                $body
+            }
+            "C14" => {
+                let $e = &c14::C14;
                 $body
             }
             other => {
@@ -332,6 +348,9 @@ fn main() {
     proc::install_panic_hook();
     if args_need_warm_up() {
         c09::warm_up();
+        c12::warm_up();
+        c13::warm_up();
+        c14::warm_up();
     }
     let args: Vec<String> = std::env::args().skip(1).collect();
     if args.is_empty() {
